@@ -126,6 +126,54 @@ def oracle(case):
     return []
 
 
+def extra_oracles(rng, tier):
+    """the call sites (results.py unauthorized, digest.py check_digest): the nonce of a real 401 challenge, used
+    with correct credentials at a later instant, is accepted exactly within the documented windows - for the
+    timeout and client string the application passes on"""
+    import re
+    from harness import c11
+    out, n, hit = [], 0, {"accepted": 0, "stale": 0}
+    users = []
+    alg, qop, realm, user, pw = "SHA-256", "auth", "Zone", "bob", "pw"
+    stored = c11.hexd(c11.real_hash(alg), "%s:%s:%s" % (user, realm, pw))
+    users = [(realm, user, stored)]
+    for T in (1, 2, 7, 300, None):
+        app = c11.get_app(alg, qop, users, realm, None, secret="c16-secret", timeout=T)
+        step = (T or 4) * TPS // 4
+        for base in (0, 3 * (T or 1) * TPS, 1700000000 * TPS):
+            for i in range(0, 9 if tier == "quick" else 13):
+                for d in (-1, 0, 1):
+                    t0 = base + (0 if T is None else 0)
+                    t1 = base + i * step + d
+                    if t1 < t0:
+                        continue
+                    for agent0, agent1 in (("UA/1", "UA/1"), ("UA/1", "UA/2"), (None, None)):
+                        n += 1
+                        status, ran, www, _ = c11.call(app, "GET", "/p/x", "", None, agent0, now_ticks=t0)
+                        m = re.search(r'nonce="([0-9a-f]+)"', www)
+                        if status != 401 or not m:
+                            out.append(Violation("c16-e2e:challenge", "T=%s t0=%d" % (T, t0),
+                                                 "no Digest challenge with a nonce: %d %r" % (status, www[:80])))
+                            continue
+                        f = c11.client_fields(c11.real_hash(alg), alg, qop, user, realm, pw, m.group(1), "GET", "/p/x",
+                                              c11.opaque_of())
+                        status, ran, www, _ = c11.call(app, "GET", "/p/x", "", c11.render(f), agent1, now_ticks=t1)
+                        if not T:
+                            want = agent0 == agent1
+                        else:
+                            want = agent0 == agent1 and (Fraction(t1, TPS) // T) <= (Fraction(t0, TPS) // T) + 1
+                        got = status == 200 and ran == [user]
+                        hit["accepted" if got else "stale"] += 1
+                        if got != want:
+                            out.append(Violation(
+                                "c16-e2e:window", "T=%s issued %s checked %s agents %r/%r" % (T, t0 / TPS, t1 / TPS, agent0, agent1),
+                                "nonce of the 401 challenge issued at %s, credentials sent at %s (auth_timeout %s, "
+                                "client %r -> %r): %s, required %s" % (t0 / TPS, t1 / TPS, T, agent0, agent1,
+                                                                      "accepted" if got else "refused (%d)" % status,
+                                                                      "accepted" if want else "refused")))
+    return out, {"evaluations": n, "distinct_nontrivial": n, "e2e_outcomes": hit}
+
+
 def expiries(T, t, issue):
     if not T:
         return [""]
